@@ -346,12 +346,14 @@ class Engine:
                 return "<list>"
             if st[0] == "conc":
                 return [self.concretise(x, model) for x in st[1]]
-            n = ev(st[1]).as_long()
-            n = max(0, min(n, 64))
+            n_full = ev(st[1]).as_long()
+            n = max(0, min(n_full, 64))
             items = []
             for i in range(n):
                 leaves = [z3.Select(a, z3.IntVal(i)) for a in st[2]]
                 items.append(self.concretise(self.from_leaves(leaves, st[3]), model))
+            if n_full > 64:
+                return {"list_len": n_full, "head": items}
             return items
         if isinstance(v, VObj):
             return {"obj": getattr(v.cls, "__name__", str(v.cls)), "ref": ev(v.t).as_long()}
@@ -399,12 +401,12 @@ class Engine:
         if isinstance(T_, TList):
             loc = self.new_loc()
             n = z3.Int(self.fresh_name(name + ".len"))
-            self.assume(n >= 0)
+            self.assume(z3.And(n >= 0, n < (1 << 48)))  # physical bound on list lengths (address space)
             if T_.maxlen is not None:
                 self.assume(n <= T_.maxlen)
             arrs = [z3.Array(self.fresh_name("%s.%s" % (name, k)), z3.IntSort(), s) for k, s in self.leaf_sorts(T_.elem)]
             self.lists[loc] = ["sym", n, arrs, T_.elem]
-            # element well-formedness (ranges of np ints, enum indices) is assumed on read
+            self.assume_list_wf(self.lists[loc])
             return VList(loc)
         if isinstance(T_, TObj):
             t = z3.Int(self.fresh_name(name))
@@ -606,6 +608,53 @@ class Engine:
         return self.fresh(self.type_of(v), name)
 
     # ---------------------------------------------------------------- lists
+    def leaf_bounds(self, T_):
+        """Per leaf: (lo, hi) integer bounds implied by the declared type, or None."""
+        if isinstance(T_, TInt):
+            lo, hi = (None, None)
+            if T_.np:
+                lo, hi = np_range(T_.np)
+            if T_.lo is not None:
+                lo = T_.lo if lo is None else max(lo, T_.lo)
+            if T_.hi is not None:
+                hi = T_.hi if hi is None else min(hi, T_.hi)
+            return [(lo, hi)]
+        if isinstance(T_, TEnum):
+            return [(0, len(list(T_.cls)) - 1)]
+        if isinstance(T_, (TBool, TFloat)):
+            return [None]
+        if isinstance(T_, TObj):
+            return [None]
+        if isinstance(T_, TTuple):
+            out = []
+            for it in T_.items:
+                out += self.leaf_bounds(it)
+            return out
+        if isinstance(T_, TOpt):
+            return [None] + [None for _ in self.leaf_bounds(T_.elem)]
+        if isinstance(T_, TStruct):
+            out = []
+            for ft in T_.fields.values():
+                out += self.leaf_bounds(ft)
+            return out
+        return [None for _ in self.leaf_sorts(T_)]
+
+    def assume_list_wf(self, st):
+        """forall j in [0, len): every bounded leaf of element j lies in its declared range."""
+        bounds = self.leaf_bounds(st[3])
+        j = z3.Int(self.fresh_name("wf"))
+        cs = []
+        for a, b in zip(st[2], bounds):
+            if b is None:
+                continue
+            lo, hi = b
+            if lo is not None:
+                cs.append(z3.Select(a, j) >= lo)
+            if hi is not None:
+                cs.append(z3.Select(a, j) <= hi)
+        if cs:
+            self.assume(z3.ForAll([j], z3.Implies(z3.And(j >= 0, j < st[1]), z3.And(cs))))
+
     def new_loc(self):
         self.next_loc += 1
         return self.next_loc
@@ -678,7 +727,7 @@ class Engine:
                 if not (-len(st[1]) <= ci < len(st[1])):
                     raise PyRaise(IndexError, "list index out of range", self.cur_line)
                 return st[1][ci]
-        if check:
+        if check and not (getattr(self, "in_clause", False) or getattr(self, "in_quant", 0)):
             ok = z3.And(idx >= -n, idx < n)
             if not self.branch(ok):
                 raise PyRaise(IndexError, "list index out of range", self.cur_line)
@@ -788,14 +837,16 @@ class Engine:
             self.lists[loc] = ["sym", st[1], list(st[2]), st[3]]
         return VList(loc)
 
-    def havoc_list(self, lv, name):
+    def havoc_list(self, lv, name, elemT=None):
         st = self._lst(lv)
         if st[0] == "conc":
-            st = self.to_sym_list(lv)
+            st = self.to_sym_list(lv, elemT)
         n = z3.Int(self.fresh_name(name + ".len"))
         self.assume(n >= 0)
         arrs = [z3.Array(self.fresh_name(name), z3.IntSort(), a.sort().range()) for a in st[2]]
-        self._commit(lv, ["sym", n, arrs, st[3]])
+        new = ["sym", n, arrs, st[3]]
+        self._commit(lv, new)
+        self.assume_list_wf(new)
 
     # ---------------------------------------------------------------- heap
     def field_type(self, field):
@@ -981,8 +1032,9 @@ class Engine:
                 return VFloat(z3.FPVal(f, fsort(kind)), kind, False)
             if iv.bv is not None:
                 return VFloat(z3.fpSignedToFP(RNE, iv.bv, fsort(kind)), kind, False)
-            # symbolic int -> float: via Real (correctly rounded)
-            return VFloat(z3.fpToFP(RNE, z3.ToReal(iv.t), fsort(kind)), kind, False)
+            # symbolic int -> float: via Real (correctly rounded); exact when it fits the mantissa
+            q = (iv.t, 1) if self.fits_mantissa(iv.t, kind) else None
+            return VFloat(z3.fpToFP(RNE, z3.ToReal(iv.t), fsort(kind)), kind, False, q)
         raise Unsupported("to_float of %r" % (v,))
 
     def float_to_int(self, ft, label):
@@ -1191,10 +1243,44 @@ class Engine:
             r = wrap(r, npk)
         return VInt(r, npk)
 
+    @staticmethod
+    def pow2_factor(t):
+        """k such that the term is syntactically (c * e) with c a multiple of 2**k (0 if unknown)."""
+        t = simp(t)
+        if z3.is_int_value(t):
+            c = t.as_long()
+            return (c & -c).bit_length() - 1 if c != 0 else 256
+        if z3.is_mul(t):
+            k = 0
+            for ch in t.children():
+                if z3.is_int_value(ch):
+                    c = ch.as_long()
+                    if c != 0:
+                        k += (c & -c).bit_length() - 1
+            return k
+        if z3.is_add(t):
+            return min(Engine.pow2_factor(ch) for ch in t.children())
+        return 0
+
+    def implied(self, cond):
+        self.solver.push()
+        self.solver.add(z3.Not(cond))
+        r = self.solver.check()
+        self.solver.pop()
+        return r == z3.unsat
+
     def bit_binop(self, op, x, y):
         cx, cy = conc_int(x), conc_int(y)
         if cx is not None and cy is not None:
             return z3.IntVal({"&": cx & cy, "|": cx | cy, "^": cx ^ cy}[op])
+        if op in ("|", "^"):
+            # disjoint bit ranges: hi is a multiple of 2**k and 0 <= lo < 2**k  ==>  hi | lo == hi ^ lo == hi + lo
+            for hi_, lo_ in ((x, y), (y, x)):
+                k = self.pow2_factor(hi_)
+                if 0 < k < 256 and self.implied(z3.And(lo_ >= 0, lo_ < (1 << k))):
+                    return hi_ + lo_
+                if conc_int(lo_) == 0:
+                    return hi_
         if op == "&":
             # x & (2^k - 1)  ==  x mod 2^k ;  x & 2^k == ((x div 2^k) mod 2) * 2^k
             for u, cu in ((x, cy), (y, cx)):
@@ -1210,6 +1296,67 @@ class Engine:
                     if ((cu >> s) & ((cu >> s) + 1)) == 0:
                         return ((u / (1 << s)) % ((cu >> s) + 1)) * (1 << s)
         return self.bitop(op, x, y)
+
+    MANT = {"f64": 53, "f32": 24}
+
+    def q_of(self, v):
+        """(num term, den int) if v is exactly a dyadic rational known to the engine, else None."""
+        if isinstance(v, VFloat):
+            if v.q is not None:
+                return v.q
+            t = simp(v.t)
+            if z3.is_fp_value(t):
+                try:
+                    f = self.lower(VFloat(t, v.kind, False))
+                    n, d = float(f).as_integer_ratio()
+                    return (z3.IntVal(n), d)
+                except (ValueError, OverflowError):
+                    return None
+            return None
+        iv = self.as_int(v)
+        if iv is not None:
+            return (iv.t, 1)
+        return None
+
+    def fits_mantissa(self, num, kind):
+        lim = 1 << self.MANT[kind]
+        c = conc_int(num)
+        if c is not None:
+            return abs(c) <= lim
+        return self.implied(z3.And(num <= lim, num >= -lim))
+
+    def q_binop(self, op, qa, qb, kind):
+        """Exact dyadic result of a float operation, or None when exactness is not established."""
+        (na, da), (nb, db) = qa, qb
+        if op in ("+", "-"):
+            D = max(da, db)
+            n = na * (D // da) + nb * (D // db) if op == "+" else na * (D // da) - nb * (D // db)
+            n = simp(n)
+            return (n, D) if self.fits_mantissa(n, kind) else None
+        if op == "*":
+            ca, cb = conc_int(na), conc_int(nb)
+            if ca is None and cb is None:
+                return None
+            n = simp(na * nb)
+            # multiplication by a power of two only changes the exponent
+            pow2 = any(c is not None and c != 0 and (abs(c) & (abs(c) - 1)) == 0 for c in (ca, cb))
+            if pow2:
+                other = nb if (ca is not None and ca != 0 and (abs(ca) & (abs(ca) - 1)) == 0) else na
+                if self.fits_mantissa(other, kind):
+                    return (n, da * db)
+            return (n, da * db) if self.fits_mantissa(n, kind) else None
+        if op == "/":
+            cb = conc_int(nb)
+            if cb is None or cb == 0:
+                return None
+            if (abs(cb) & (abs(cb) - 1)) != 0:
+                return None
+            # a / (cb/db) = a * db / cb ; cb = +-2^k
+            n = simp(na * db * (1 if cb > 0 else -1))
+            d = da * abs(cb)
+            # reduce common power of two between constant factor and d is not needed; exact if na fits
+            return (n, d) if self.fits_mantissa(na, kind) else None
+        return None
 
     def float_binop(self, op, a, b):
         """IEEE arithmetic with NEP-50 promotion: f32 op python scalar -> f32; f32 op f64(np) -> f64."""
@@ -1247,7 +1394,11 @@ class Engine:
             r = z3.fpDiv(RNE, x, y)
         else:
             raise Unsupported("float op %s" % op)
-        return VFloat(r, kind, isnp)
+        q = None
+        qa, qb = self.q_of(a), self.q_of(b)
+        if qa is not None and qb is not None:
+            q = self.q_binop(op, qa, qb, kind)
+        return VFloat(r, kind, isnp, q)
 
     def to_float_weak(self, v, kind):
         """Convert operand to the operation's float kind. A python float literal converted to f32 rounds."""
@@ -1310,6 +1461,10 @@ class Engine:
             r = self.contains(b, a)
             return VBool(r if op == "in" else z3.Not(r))
         if isinstance(a, VFloat) or isinstance(b, VFloat):
+            qa, qb = self.q_of(a), self.q_of(b)
+            if qa is not None and qb is not None and (conc_int(qa[0]) is None or conc_int(qb[0]) is None):
+                x, y = qa[0] * qb[1], qb[0] * qa[1]
+                return VBool({"<": x < y, "<=": x <= y, ">": x > y, ">=": x >= y}[op])
             kind = "f64"
             if isinstance(a, VFloat) and isinstance(b, VFloat) and a.kind == b.kind:
                 kind = a.kind
@@ -1369,6 +1524,9 @@ class Engine:
             return z3.BoolVal(isinstance(a, VNone) and isinstance(b, VNone))
         if isinstance(a, VFloat) or isinstance(b, VFloat):
             if isinstance(a, (VFloat, VInt, VBool)) and isinstance(b, (VFloat, VInt, VBool)):
+                qa, qb = self.q_of(a), self.q_of(b)
+                if qa is not None and qb is not None and (conc_int(qa[0]) is None or conc_int(qb[0]) is None):
+                    return qa[0] * qb[1] == qb[0] * qa[1]
                 return z3.fpEQ(self.to_float_cmp(a), self.to_float_cmp(b))
             return z3.BoolVal(False)
         if isinstance(a, VEnum) and isinstance(b, VEnum):
@@ -1454,7 +1612,7 @@ class Engine:
             return VBool(z3.Not(self.truth(v)))
         if isinstance(v, VFloat):
             if op == "-":
-                return VFloat(z3.fpNeg(v.t), v.kind, v.isnp)
+                return VFloat(z3.fpNeg(v.t), v.kind, v.isnp, None if v.q is None else (-v.q[0], v.q[1]))
             if op == "+":
                 return v
         iv = self.as_int(v)
@@ -1496,7 +1654,12 @@ class Engine:
             return NONE
         if isinstance(a, VFloat) or isinstance(b, VFloat):
             if isinstance(a, VFloat) and isinstance(b, VFloat) and a.kind == b.kind:
-                return VFloat(z3.If(c, a.t, b.t), a.kind, a.isnp or b.isnp)
+                qa, qb = self.q_of(a), self.q_of(b)
+                q = None
+                if qa is not None and qb is not None and (a.q is not None or b.q is not None):
+                    D = max(qa[1], qb[1])
+                    q = (z3.If(c, qa[0] * (D // qa[1]), qb[0] * (D // qb[1])), D)
+                return VFloat(z3.If(c, a.t, b.t), a.kind, a.isnp or b.isnp, q)
             if isinstance(a, VFloat) and isinstance(b, VFloat):
                 raise Unsupported("ite of f32/f64")
             f = a if isinstance(a, VFloat) else b
